@@ -109,4 +109,80 @@ theorem Tree.All_child {P : V → Prop} {t s : Tree V} {c : Comp}
     (h : t.child c = some s) (ha : t.All P) : s.All P :=
   Forest.All_find h ha.2
 
+/-! ### `add` / `set_value` preserve node invariants -/
+
+theorem Forest.All_modify {P : V → Prop} {c : Comp} {h : V → Forest V → V × Forest V} {dflt : V}
+    (hd : P dflt)
+    (hh : ∀ v k, P v → k.All P → P (h v k).1 ∧ (h v k).2.All P)
+    {f : Forest V} (hf : f.All P) : (f.modify c h dflt).All P := by
+  induction f with
+  | nil =>
+    have := hh dflt .nil hd trivial
+    exact ⟨this.1, this.2, trivial⟩
+  | cons n v k r _ ih =>
+    obtain ⟨hv, hk, hr⟩ := hf
+    simp only [Forest.modify]
+    split
+    · have := hh v k hv hk
+      exact ⟨this.1, this.2, hr⟩
+    · exact ⟨hv, hk, ih hr⟩
+
+theorem nodeUpd_All {P : V → Prop} {dflt : V} {g : V → V} (hd : P dflt) (hg : ∀ v, P (g v))
+    (path : Path) (v : V) (k : Forest V) (hv : P v) (hk : k.All P) :
+    P (nodeUpd dflt g path v k).1 ∧ (nodeUpd dflt g path v k).2.All P := by
+  induction path generalizing v k with
+  | nil => exact ⟨hg v, hk⟩
+  | cons c rest ih =>
+    exact ⟨hv, Forest.All_modify hd (fun v k hv hk => ih v k hv hk) hk⟩
+
+theorem Tree.All_updAt {P : V → Prop} {dflt : V} {g : V → V} (hd : P dflt) (hg : ∀ v, P (g v))
+    {t : Tree V} (ht : t.All P) (path : Path) : (t.updAt dflt path g).All P :=
+  nodeUpd_All hd hg path t.value t.entries ht.1 ht.2
+
+/-! ### prefix-mode globs are extension-closed -/
+
+theorem prefixOf_extClosed {f : Glob} (hf : EmptyOk f) : ExtClosed (prefixOf f) := by
+  intro t ext h
+  cases t with
+  | nil =>
+    cases ext with
+    | nil => simpa using h
+    | cons c r =>
+      simp only [prefixOf] at h
+      simp only [List.nil_append, prefixOf, List.any_eq_true, List.mem_range]
+      exact ⟨0, by simp, by simpa using hf h c⟩
+  | cons a t =>
+    simp only [prefixOf, List.any_eq_true, List.mem_range] at h
+    obtain ⟨k, hk, hfk⟩ := h
+    simp only [List.cons_append, prefixOf, List.any_eq_true, List.mem_range]
+    refine ⟨k, by simp only [List.length_cons, List.length_append] at hk ⊢; omega, ?_⟩
+    have : ((a :: t) ++ ext).take (k + 1) = (a :: t).take (k + 1) :=
+      List.take_append_of_le_length (by simp only [List.length_cons] at hk ⊢; omega)
+    rw [List.cons_append] at this; rw [this]; exact hfk
+
+theorem groupGlob_extClosed {pats : List (Path × Glob)} (h : ∀ p ∈ pats, ExtClosed p.2)
+    (dir : Path) : ExtClosed (groupGlob pats dir) := by
+  intro t ext ht
+  simp only [groupGlob, List.any_eq_true, List.mem_filter] at ht ⊢
+  obtain ⟨p, ⟨hp, hd⟩, hpt⟩ := ht
+  exact ⟨p, ⟨hp, hd⟩, h p hp t ext hpt⟩
+
+theorem globsNew_All {pats : List (Path × Glob)} (h : ∀ p ∈ pats, ExtClosed p.2) :
+    (globsNew pats).All GlobOptExt := by
+  unfold globsNew
+  have key : ∀ (l : List (Path × Glob)) (t : Tree (Option Glob)), t.All GlobOptExt →
+      (l.foldl (fun t p => t.updAt none p.1 (fun _ => some (groupGlob pats p.1))) t).All GlobOptExt := by
+    intro l
+    induction l with
+    | nil => intro t ht; exact ht
+    | cons p l ih =>
+      intro t ht
+      apply ih
+      apply Tree.All_updAt (by intro g hg; cases hg) ?_ ht
+      intro _ g hg
+      cases hg
+      exact groupGlob_extClosed h p.1
+  apply key
+  exact ⟨(by intro g hg; cases hg), trivial⟩
+
 end JjModel.Matchers
